@@ -7,6 +7,7 @@ import (
 	"time"
 
 	"github.com/goghcrow/yae/parser/ast"
+	"github.com/goghcrow/yae/val"
 	"github.com/goghcrow/yae/vm"
 
 	"verif/harness/bridge"
@@ -22,6 +23,9 @@ type ProgCase struct {
 	Env  *bridge.Env
 	User []*ref.Fun
 	Back []bridge.Backend // nil = all four
+	// SameEnvObject: further environments are bound into the SAME run-time
+	// environment object (Put) instead of fresh ones
+	SameEnvObject bool
 	// AsAST: feed the explicit tree directly (no lexer / parser); Src is then
 	// only a label
 	AsAST bool
@@ -127,6 +131,7 @@ func RunProgMulti(pc *ProgCase, more []*bridge.Env) []*ProgObs {
 				bc, bcErr = bridge.VerifyProgram(p)
 			}()
 		}
+		var rt *val.Env
 		for i, env := range envs {
 			o := obs[i]
 			bo := &BackObs{}
@@ -144,7 +149,18 @@ func RunProgMulti(pc *ProgCase, more []*bridge.Env) []*ProgObs {
 				bo.Skipped = "bytecode failed verification"
 				continue
 			}
-			bo.Res = c.Exec(env.ValEnv())
+			if pc.SameEnvObject {
+				if i == 0 {
+					rt = c.Bind(env.ValEnv())
+				} else {
+					for _, n := range env.Names {
+						rt.Put(n, bridge.ToVal(env.V[n]))
+					}
+				}
+				bo.Res = c.ExecOn(rt)
+			} else {
+				bo.Res = c.Exec(env.ValEnv())
+			}
 			if bo.Res.Class == bridge.OValue {
 				bo.RV, bo.Ill = bridge.FromVal(bo.Res.Val, c.Type)
 			}
